@@ -53,8 +53,9 @@ Theorem C04_sequence_roundtrip :
 Proof. exact plain_seq_roundtrip. Qed.
 Print Assumptions C04_sequence_roundtrip.
 
-(** The hypotheses are satisfiable: a parametrized delay on a declared channel. *)
-Example C04_sequence_example :
+(** The hypotheses are satisfiable: a parametrized delay on a declared channel;
+    its document is also valid under the regenerated schema. *)
+Theorem C04_sequence_example :
   let vars := [("n", (true, 1))] in
   let ops := [mkCall "delay" [] [("duration", VItem "n" 1 (KInt (-1))); ("channel", VStr "ch");
                                  ("at_rest", VBool false)]] in
@@ -68,11 +69,8 @@ Example C04_sequence_example :
                     end
       | None => false
       end) = true.
-Proof.
-  split.
-  - constructor; [|constructor]. apply rt_delay. reflexivity.
-  - vm_compute. reflexivity.
-Qed.
+Proof. exact plain_seq_example. Qed.
+Print Assumptions C04_sequence_example.
 
 (** Operations with parametrized arguments, optional arguments at default and
     non-default values (elision and re-insertion of defaults). *)
